@@ -51,6 +51,9 @@ REJECTIONS = [
      [({'time': 1, 'qpm': 120}, False), ({'time': 1, 'qpm': 100}, True), ({'time': 0, 'qpm': 100}, False)], 'a first tempo after time 0 is an implicit change unless it is the default 120 qpm'),
     ('quantize_note_sequence', 'BadTimeSignatureError', False, ('numerator',),
      [({'numerator': 0}, True), ({'numerator': 1}, False), ({'numerator': 7}, False)], 'a zero numerator is rejected, every other numerator is not'),
+    ('quantize_note_sequence', 'BadTimeSignatureError', False, ('denominator',),
+     [({'denominator': 1}, False), ({'denominator': 4}, False), ({'denominator': 256}, False), ({'denominator': 1073741824}, False), ({'denominator': 3}, True), ({'denominator': 6}, True),
+      ({'denominator': 0}, True)], 'a denominator is rejected exactly when it is not a power of two (every power of two up to 2**30 is accepted)'),
     ('_quantize_notes', 'NegativeTimeError', True, ('quantized_start_step', 'quantized_end_step'),
      [({'quantized_start_step': -1, 'quantized_end_step': 3}, True), ({'quantized_start_step': 0, 'quantized_end_step': 1}, False), ({'quantized_start_step': 2, 'quantized_end_step': -1}, True)],
      'a note is rejected as soon as one of its steps is negative'),
@@ -80,7 +83,22 @@ def rejection_scenarios(ctx, rule):
           c = (dotted(r.exc.func) if isinstance(r.exc, ast.Call) else dotted(r.exc)) or ''
           if c.split('.')[-1] == cls:
             own_c = [(pathval.subst(U.expand_locals(f_.node, t, at=r), env), p) for t, p in U.enclosing_tests(f_.node, r)]
-            found.append((f_, r, prefix + own_c))
+            # `for bad, reason in ((c1, m1), (c2, m2)): if bad: raise`: one guarded raise per row of the literal table
+            unrolled = False
+            for lp in U.enclosing_loops(f_.node, r):
+              if not (isinstance(lp, ast.For) and isinstance(lp.target, (ast.Tuple, ast.Name))):
+                continue
+              tab = U.expand_locals(f_.node, lp.iter, at=lp)
+              names = [e.id if isinstance(e, ast.Name) else None for e in (lp.target.elts if isinstance(lp.target, ast.Tuple) else [lp.target])]
+              if isinstance(tab, (ast.Tuple, ast.List)) and tab.elts and all(isinstance(e, (ast.Tuple, ast.List)) and len(e.elts) == len(names) for e in tab.elts) and isinstance(lp.target, ast.Tuple):
+                for row in tab.elts:
+                  envr = dict(env)
+                  envr.update((nm, pathval.subst(U.expand_locals(f_.node, x, at=lp), env)) for nm, x in zip(names, row.elts) if nm)
+                  found.append((f_, r, prefix + [(pathval.subst(U.expand_locals(f_.node, t, at=r), envr), p) for t, p in U.enclosing_tests(f_.node, r)]))
+                unrolled = True
+                break
+            if not unrolled:
+              found.append((f_, r, prefix + own_c))
       if depth < 2:
         for c_ in ast.walk(f_.node):
           if isinstance(c_, ast.Call) and isinstance(c_.func, ast.Name) and c_.func.id in fi.module.functions and not c_.keywords:
@@ -95,8 +113,8 @@ def rejection_scenarios(ctx, rule):
     sites = []
     for owner, r, conds in found:
       read = set(x.attr for t, _p in conds for x in ast.walk(t) if isinstance(x, ast.Attribute))
-      if not set(attrs) <= read:
-        continue
+      if not set(attrs) & read:
+        continue      # a guard that reads only some of the attributes is judged too: the cases say what it misses
       # the same attribute read off two different objects is a comparison between elements (change detection), not a test of one element
       bases = {}
       for t, _p in conds:
